@@ -88,7 +88,37 @@ def rule_heap_discipline(ck, rid="C11.R1"):
     ck.count("who-writes sites(_queue)", n)
 
 
+def _cut_atom(fl, node, a, t, tparam):
+    """classify a branch fact of get_current_events: 'nonempty' / 'empty' / 'cut' (head <= t) / 'notcut' / 'strict' / None"""
+    e = fl.expand(a, node)
+    ce = canon(e)
+    if ce == "self.empty()":
+        return "empty" if t else "nonempty"
+    if ce in ("self._queue", "len(self._queue)"):
+        return "nonempty" if t else "empty"
+    c = cmp_norm(e, t)
+    if c:
+        l, op, r = c
+        ls, rs = canon(l), canon(r)
+        if {ls, rs} == {"len(self._queue)", "0"}:
+            if op in ("<", "!=") and (ls == "0" or op == "!="):
+                return "nonempty"
+            if op in ("==",) or (op == "<=" and rs == "0") or (op == "<" and rs == "0"):
+                return "empty"
+            if op == "<=" and ls == "0":
+                return None
+        bound = (tparam, "self._timestep")
+        if ls == "self._queue[0][0]" and rs in bound:
+            return "cut" if op == "<=" else ("strict" if op == "<" else None)
+        if rs == "self._queue[0][0]" and ls in bound:
+            # t < head  == not (head <= t) ;  t <= head == not (head < t)
+            return "notcut" if op == "<" else ("notstrict" if op == "<=" else None)
+    return None
+
+
 def rule_cut(ck, rid="C11.R4"):
+    """retrieval for period t pops exactly while the queue is non-empty and the head's timestamp <= t (path-based: the
+    loop may be written with a compound `while` test or as `while True` with guard breaks)."""
     repo = ck.repo
     g = repo.fn("EventQueue.get_current_events")
     fl = flow_of(g)
@@ -98,53 +128,71 @@ def rule_cut(ck, rid="C11.R4"):
         raise AnalysisError("get_current_events: expected exactly one while loop")
     head = loops[0]
     tparam = g.params[1]
-    facts = edge_facts(head.expr, True)
-    nonempty = cutok = False
-    strict = False
-    for a, t in facts:
-        ce = canon(a)
-        if (isinstance(a, ast.Call) and ce in ("self.empty()",) and not t) or (ce in ("self._queue", "len(self._queue)") and t):
-            nonempty = True
-            continue
-        c = cmp_norm(a, t)
-        if c:
-            l, op, r = c
-            ls, rs = canon(fl.expand(l, head)), canon(fl.expand(r, head))
-            if ls in ("len(self._queue)", "0") and rs in ("len(self._queue)", "0"):
-                nonempty = True
+    region = cfg.loop_region(head)
+    pops = [(n, c) for n, c in calls_in(fl) if n in region and call_name(c) in ("get_event", "heappop")]
+    ck.require(len(pops) == 1, rid, g, pops[0][1] if pops else "self.get_event()", ok="one pop site in the loop", bad=f"{len(pops)} pop sites in the retrieval loop",
+               sink="cut-pop-once")
+    if len(pops) != 1:
+        return
+    P, pc = pops[0]
+    kinds = {_cut_atom(fl, P, a, t, tparam) for a, t in facts_at(fl, P)}
+    ck.require("nonempty" in kinds, rid, g, pc, ok="pop only from a non-empty queue", bad="pop loop must test that the queue is non-empty", sink="cut-nonempty")
+    ck.require("cut" in kinds, rid, g, pc, ok="events with timestamp <= t are returned (inclusive)",
+               bad="the cut must be `head timestamp <= timestep` (inclusive)" + (" - found strict <" if "strict" in kinds else ""), sink="cut-inclusive")
+    # the loop ends only when the queue is empty or the head is later than t
+    const_true = isinstance(head.expr, ast.Constant) and head.expr.value is True
+    if not const_true:
+        extra = [a for a, t in edge_facts(head.expr, True) if _cut_atom(fl, head, a, t, tparam) not in ("nonempty", "cut")]
+        conj = not any(isinstance(x, ast.BoolOp) and isinstance(x.op, ast.Or) for x in ast.walk(head.expr))
+        ck.require(not extra and conj, rid, g, head.expr, ok="the loop continues as long as a due event is pending",
+                   bad=f"the loop test has a further condition `{src(extra[0], 40) if extra else src(head.expr, 40)}`: due events can be left in the queue", sink="cut-exit-while")
+    for b in [n for n in region if n.kind in ("break", "return")]:
+        ks = {_cut_atom(fl, b, a, t, tparam) for a, t in facts_at(fl, b)}
+        # a disjunctive exit condition (`if empty or head > t: break`, or the false edge of `nonempty and head <= t`)
+        for tn, lab in cfg.edges_dominating(b):
+            if tn.kind != "test" or tn not in region:
                 continue
-            rs_ok = rs in (tparam, "self._timestep")
-            if ls == "self._queue[0][0]" and rs_ok:
-                if op == "<=":
-                    cutok = True
-                elif op == "<":
-                    strict = True
-    ck.require(nonempty, rid, g, head.expr, ok="loop guarded by non-emptiness", bad="pop loop must test that the queue is non-empty",
-               sink="cut-nonempty")
-    ck.require(cutok, rid, g, head.expr, ok="events with timestamp <= t are returned (inclusive)",
-               bad="the cut must be `head timestamp <= timestep` (inclusive)" + (" - found strict <" if strict else ""), sink="cut-inclusive")
-    # `self._timestep = timestep` when used
-    if "self._timestep" in canon(head.expr):
-        st = [(n, t) for n, k, p, t in state_writes(fl) if p == "self._timestep"]
+            e_ = tn.expr
+            neg = False
+            while isinstance(e_, ast.UnaryOp) and isinstance(e_.op, ast.Not):
+                e_, neg = e_.operand, not neg
+            eff = lab != neg
+            if isinstance(e_, ast.BoolOp) and ((isinstance(e_.op, ast.Or) and eff) or (isinstance(e_.op, ast.And) and not eff)):
+                parts = set()
+                for v in e_.values:
+                    fs = edge_facts(v, eff)
+                    parts.add(tuple(sorted(str(_cut_atom(fl, b, a, t, tparam)) for a, t in fs)) if fs else ("None",))
+                if parts and all(len(p_) == 1 and p_[0] in ("empty", "notcut") for p_ in parts):
+                    ks.add("empty")
+        ck.require(b.kind == "break" and (ks & {"empty", "notcut"}), rid, g, b.stmt, ok="leaves the loop only when nothing due is pending",
+                   bad="the retrieval loop is left although a due event may still be pending", sink="cut-exit-break")
+    # every iteration that does not leave pops: from the loop entry, the head is reachable again only through the pop
+    true_edge = [s_ for s_ in head.succ if s_.kind == "edge" and s_.label][0]
+    ck.require(head not in cfg.reach(true_edge, avoid={P}), rid, g, pc, ok="exactly one pop per iteration", bad="an iteration can complete without popping (the loop would not make progress)",
+               sink="cut-progress")
+    # `self._timestep = timestep` when the attribute is the compared bound
+    if any("self._timestep" in canon(fl.expand(a, P)) for a, t in facts_at(fl, P)):
+        st = [(n, t) for n, k, p_, t in state_writes(fl) if p_ == "self._timestep"]
         ok = len(st) == 1 and canon(st[0][0].stmt.value) == tparam and cfg.dominates(st[0][0], head)
         ck.require(ok, rid, g, st[0][1] if st else "self._timestep = timestep", ok="the compared bound is the argument",
                    bad="self._timestep must be set from the argument before the loop", sink="cut-bound")
-    body = cfg.loop_body_nodes(head)
-    pops = [(n, c) for n, c in calls_in(fl) if n in body and call_name(c) in ("get_event", "heappop")]
-    true_edge = [s for s in head.succ if s.kind == "edge" and s.label][0]
-    ok = len(pops) == 1 and head not in cfg.reach(true_edge, avoid={pops[0][0]})
-    ck.require(ok, rid, g, pops[0][1] if pops else "self.get_event()", ok="exactly one pop per iteration",
-               bad="each iteration must pop exactly one event", sink="cut-pop-once")
     rets = [n for n in cfg.nodes if n.kind == "return"]
     good = False
-    if pops and rets:
-        # popped value appended to the returned list
-        for n, c in calls_in(fl, "append"):
-            if n in body and c.args and any(p[1] is x for x in ast.walk(c.args[0]) for p in pops):
+    for n, c in calls_in(fl, "append"):
+        if n in region and c.args:
+            ex = fl.expand(c.args[0], n)
+            if any(isinstance(x, ast.Call) and call_name(x) in ("get_event", "heappop") for x in ast.walk(ex)):
                 lst = dotted(c.func.value)
-                good = all(dotted(r.expr) == lst for r in rets)
-    ck.require(good, rid, g, rets[0].expr if rets else "return current_events", ok="every popped event is returned",
-               bad="popped events must be appended to the list that is returned", sink="cut-returned")
+                good = bool(rets) and all(dotted(r.expr) == lst for r in rets) and not [t for t, lab in cfg.edges_dominating(n) if t.kind == "test" and t in region and
+                                                                                         _cut_atom(fl, n, t.expr, lab, tparam) is None and t is not head and
+                                                                                         not all(_cut_atom(fl, n, a_, t_, tparam) for a_, t_ in edge_facts(t.expr, lab))]
+    ck.require(good, rid, g, rets[0].expr if rets else "return current_events", ok="every popped event is returned, in pop order",
+               bad="popped events must be appended to the list that is returned (unfiltered, unsorted)", sink="cut-returned")
+    for r in rets:
+        e = fl.expand(r.expr, r)
+        ck.require(not any(isinstance(x, ast.Call) and call_name(x) in ("sorted", "sort", "reversed", "reverse") for x in ast.walk(e)) and
+                   not [c for n, c in calls_in(fl) if call_name(c) in ("sort", "reverse") and dotted(c.func.value) == dotted(r.expr)], rid, g, r.expr,
+                   ok="returned in pop order", bad="the returned events are re-ordered after popping (Event.__lt__ compares precedence only, not time)", sink="cut-order")
 
 
 def rule_derived(ck, rid="C11.R5"):
@@ -153,11 +201,26 @@ def rule_derived(ck, rid="C11.R5"):
     for name in ("__len__", "empty", "get_last_timestamp"):
         m = repo.method(q, name)
         fl = flow_of(m)
-        for r in [n for n in fl.cfg.nodes if n.kind == "return"]:
+        rets_ = [n for n in fl.cfg.nodes if n.kind == "return"]
+        ck.require(bool(rets_) and fl.cfg.exit.pred and all(p_.kind == "return" for p_ in fl.cfg.exit.pred), rid, m, name, ok="always returns a value",
+                   bad=f"{name} can fall off the end (returns None)", sink=f"{name}-returns")
+        for r in rets_:
             if r.expr is None:
                 continue
-            lv = {x for x in leaves(fl.expand(r.expr, r)) if x not in ("len()", "max()", "x")}
+            ex_ = fl.expand(r.expr, r)
+            bound = set()
+            for x in ast.walk(ex_):
+                if isinstance(x, ast.comprehension):
+                    bound |= {y.id for y in ast.walk(x.target) if isinstance(y, ast.Name)}
+                if isinstance(x, ast.Lambda):
+                    bound |= {a.arg for a in x.args.args}
+            lv = {x for x in leaves(ex_) if x not in ("len()", "max()", "x") and x.split(".")[0] not in bound}
             lv = {x for x in lv if not x.endswith("()") or x.startswith("self.")}
+            if name == "__len__":
+                ck.require(canon(ex_) == "len(self._queue)", rid, m, r.expr, ok="length of the heap array", bad=f"__len__ returns `{canon(ex_)[:50]}`, not len(self._queue)", sink="__len__-value")
+            if name == "empty":
+                pols = [_cut_atom(fl, r, a_, t_, "?") for a_, t_ in edge_facts(fl.expand(r.expr, r), True)]
+                ck.require(pols == ["empty"], rid, m, r.expr, ok="true exactly when nothing is pending", bad=f"empty() returns `{canon(ex_)[:50]}`, which is not `the heap array is empty`", sink="empty-value")
             extra = {x for x in lv if x not in ("self._queue", "self.empty()", "self.queue", "len", "max")}
             ck.require(not extra, rid, m, r.expr, ok="a function of the heap array only",
                        bad=f"{name} depends on {sorted(extra)} - must reflect the pending set (no shadow state)", sink=f"{name}-influence")
